@@ -84,6 +84,14 @@ pub fn noisy_layout(r: &mut Rng, steps: &[StepSpec], comments: bool) -> (String,
             lead.extend(rest);
             words = lead;
         }
+        // a flag behind the operator's name may be spelled out: `inv=true`, in any case (in front of the name only
+        // the bare words are modifiers)
+        let named = words.iter().position(|w| !(w == "inv" || w == "omit_fwd" || w == "omit_inv")).unwrap_or(usize::MAX);
+        for (j, w) in words.iter_mut().enumerate() {
+            if j > named && (w == "inv" || w == "omit_fwd" || w == "omit_inv") && r.chance(1, 8) {
+                *w = format!("{w}={}", r.pick(&["true", "True", "TRUE", "tRuE"]));
+            }
+        }
         if i > 0 || sep != "|" {
             out += &ws0(r);
             out += sep;
@@ -168,6 +176,14 @@ pub fn generate(g: &mut Gen, thorough: bool) {
         }
         if g.rng.chance(1, 4) {
             steps.push(StepSpec::plain("axisswap order=2,1,3"));
+        }
+        // steps that work on the stack of the pipeline are steps like any other: modifiers in front, sugar, noise
+        if g.rng.chance(1, 3) {
+            let a = g.rng.below(steps.len() + 1);
+            let (push, pop) = *g.rng.pick(&[("stack push=1,2", "stack pop=2,1"), ("push v_1 v_2", "pop v_2 v_1"), ("stack push=3", "stack pop=1"), ("stack push=1,2,3", "stack roll=3,1")]);
+            steps.insert(a, StepSpec { core: push.to_string(), inv: false, omit_fwd: g.rng.chance(1, 4), omit_inv: g.rng.chance(1, 4) });
+            let b = a + 1 + g.rng.below(steps.len() - a);
+            steps.insert(b, StepSpec { core: pop.to_string(), inv: g.rng.chance(1, 6), omit_fwd: g.rng.chance(1, 4), omit_inv: g.rng.chance(1, 4) });
         }
         let comments = g.rng.chance(1, 2);
         let (noisy, canon) = noisy_layout(&mut g.rng, &steps, comments);
